@@ -52,6 +52,11 @@ type clientStream struct {
 
 	teardown func(bool)
 
+	// sendMu orders what SendMsg and CloseSend put on the wire against the
+	// reset written by teardown: the reset is the last envelope of the stream.
+	// It is held across the transport write, never together with protected.
+	sendMu sync.Mutex
+
 	rCh chan *goatorepo.Body
 
 	// singleResponse marks a stream whose peer answers with one message
@@ -113,7 +118,12 @@ func NewStream(
 			writeCtx, cancelWrite := context.WithDeadline(context.Background(),
 				time.Now().Add(30*time.Second))
 			defer cancelWrite()
+			// The stream's context is done by now, so a send which is still in
+			// the transport lets go; one which has not reached it yet sees the
+			// context and writes nothing after the reset.
+			cs.sendMu.Lock()
 			err := rw.Write(writeCtx, &rpc)
+			cs.sendMu.Unlock()
 			if err != nil {
 				log.Err(err).Str("method", method).
 					Msg("Failed to send RST_STREAM message on teardown")
@@ -202,7 +212,18 @@ func (cs *clientStream) CloseSend() error {
 		})
 	}
 
+	cs.sendMu.Lock()
+	if ctxErr := cs.ctx.Err(); ctxErr != nil {
+		// Cancelled since the check above: the reset is, or will be, the last
+		// word on this stream.
+		cs.sendMu.Unlock()
+		if done, _ := cs.readErrorIfDone(); done {
+			return nil
+		}
+		return toStatusError(ctxErr)
+	}
 	err := cs.rw.Write(cs.ctx, &tr)
+	cs.sendMu.Unlock()
 	if err != nil && cs.ctx.Err() != nil {
 		// The read loop cancels cs.ctx when the stream finishes: a write which
 		// lost to that is a half-close on a stream which is over, not a failure.
@@ -271,7 +292,18 @@ func (cs *clientStream) SendMsg(m interface{}) error {
 			Data: body.Materialize(),
 		},
 	}
+	cs.sendMu.Lock()
+	if ctxErr := cs.ctx.Err(); ctxErr != nil {
+		// Cancelled since the check above: the reset is, or will be, the last
+		// word on this stream.
+		cs.sendMu.Unlock()
+		if done, err := cs.readErrorIfDone(); done {
+			return err
+		}
+		return toStatusError(ctxErr)
+	}
 	err = cs.rw.Write(cs.ctx, &rpc)
+	cs.sendMu.Unlock()
 	if err != nil {
 		if cs.ctx.Err() != nil {
 			// As above: the stream may have finished while we were writing, in
